@@ -193,14 +193,21 @@ def spec(tier, seed):
     # (probed: InstructionGenerator::generate_fix_string_length on one by-reference argument of symbolic STRING * n type -
     # CBMC resource failure after 140-200 s; Expression::expression_type clones the recursive ExpressionType enum.  Outside.)
 
-    # (probed again: fix_length on a text of 1..3 characters over {x, y, NUL} built with String::push, target length 0..5: CBMC out of
-    # memory at 8 GB / resource failure after 130 s (str::find -> memchr, String::pop); only the empty text is decided.  Outside.)
+    # STRING * n: fix_length pads with blanks or truncates to exactly n characters; a NUL ends the text.  (With the text built by
+    # String::push and a symbolic target length CBMC ran out of memory; with the bytes chosen from constants, copied in one piece and the
+    # target length fixed per instance it is decided in about a minute.)
+    import strkernels as sk
+    su = b.file(sk.SU_FILE, "rusty_basic", "interpreter::string_utils")
+    for shape, length, t in (("", 2, "quick"), ("x", 0, "quick"), ("xx", 2, "quick"), ("xxx", 2, "quick"), ("xx", 4, "quick"),
+                             ("xxx", 5, "thorough"), ("xxxx", 1, "thorough"), ("xxxx", 3, "thorough")):
+        sk.fix_length_kernel(b, su, "vk_c04", shape, length, t)
 
     return b.build(
         tier,
         bounds="1-, 2-, 3-dimensional shapes; lower bounds any i8; extents <= 4, 4x4, 2x2x2 (quick) and <= 8, 6x4, 4x3x2, 3x3x3 (thorough); "
                "indices any i16; store/load on INTEGER arrays of shape 3, 2x2 (quick), 3x2, 2x2x2 (thorough, non-core)",
-        outside="records (HashMap-backed), STRING * n (fix_length), element conversion on store (Cast emission), by-reference routes, "
+        outside="records (HashMap-backed), the emission of FixLength by the generator (STRING * n assigned through a by-reference parameter), "
+                "element conversion on store (Cast emission), by-reference routes, "
                 "the resolution of variable paths to the array (var_path.rs)",
         assumptions=["subscripts reach VArray as INTEGER values (the generator casts every subscript)"],
     )
